@@ -191,10 +191,10 @@ def is_coroutine_poll_loop(body, h, blocks):
 
 def _is_err_block(body, b):
     for s in body.stmts(b):
-        if "lhs" in s and s["lhs"][0] == 0 and not s["lhs"][1] and s["rv"].get("k") == "aggr" and s["rv"].get("variant") == "Err":
+        if "lhs" in s and s["lhs"][0] in body.ret_locals and not s["lhs"][1] and s["rv"].get("k") == "aggr" and s["rv"].get("variant") == "Err":
             return True
     t = body.term(b)
-    if t["k"] == "call" and "fn" in t and Callee(t["fn"]).decl_path == "std::ops::FromResidual::from_residual" and t["dest"][0] == 0:
+    if t["k"] == "call" and "fn" in t and Callee(t["fn"]).decl_path == "std::ops::FromResidual::from_residual" and t["dest"][0] in body.ret_locals:
         return True
     return False
 
